@@ -4,7 +4,7 @@ text (tools/mk.py). Serves C01, C02, C03, C04 (per-property generator mix and or
 import random, copy, re
 from vlib import hx
 import gens, cfgcodec, mk
-from dom_expand import B, field, outcome, outcome_cached, line_of
+from dom_expand import B, field, outcome, outcome_cached, outcome_rerendered, line_of
 
 MODE = 'expandg'
 
@@ -109,6 +109,9 @@ def cases(tier, seed, prop):
         n = 8000 if tier == 'quick' else 40000
         for _ in range(n):
             out.append({'seq': mk.gen_seq(rnd, opt, [rnd.randint(1, 10)], 3), 'c': rnd.choice(C01_CFGS), 'g': 'random'})
+        for (n1, n2) in ((40, 30), (12, 100)):
+            row = {'k': 'elem', 'name': 'row', 'mentions': [], 'text': None, 'rep': n1, 'slash': False}; cell = {'k': 'elem', 'name': 'cell', 'mentions': [], 'text': None, 'rep': n2, 'slash': False}
+            out.append({'seq': [[row, '>'], [cell, None]], 'c': {'options': {'output.format': False}}, 'g': 'large'})
         oi = dict(opt, names=['div', 'p', 'ul', 'li', 'span', 'em', 'br', 'hr', 'wbr', 'section', 'x', 'table', 'tr', 'td'], p_noname=.1, p_void_child=.25, p_attr=0, p_text=0, p_id=.1, p_class=.2, p_rep=.2)
         for _ in range(n // 6):
             seq_ = mk.gen_seq(rnd, oi, [rnd.randint(2, 9)], 2)
@@ -143,6 +146,8 @@ def cases(tier, seed, prop):
             if n2 is None: seq = [[e, None]]
             else: seq = [[{'k': 'group', 'body': [[e, None]], 'rep': n2}, None]]
             out.append({'seq': seq, 'c': {'options': {'output.format': False}}, 'g': 'large'})
+        for ab, exp in [('div.{a$}*2', '<div className={a1}></div><div className={a2}></div>'), ('p#{i$$}*2', '<p id={i01}></p><p id={i02}></p>'), ('ul>li.{k$@3}*2', '<ul><li className={k3}></li><li className={k4}></li></ul>')]:
+            out.append({'s': ab, 'c': {'syntax': 'jsx', 'options': {'output.format': False}}, 'expect': exp, 'g': 'jsx-shorthand-expr'})
         # numbering next to the `$#` placeholder under two nested repeaters, with a wrap text
         for text in ('T', 'some text'):
             for o_ in ({'output.format': False}, {'output.format': False, 'output.attributeQuotes': 'single'}):
@@ -168,6 +173,9 @@ def cases(tier, seed, prop):
                         ('xsl:param[name=n select="a b"]>xsl:variable[name=m select=y]{v}', '<xsl:param name="n" select="a b"><xsl:variable name="m">v</xsl:variable></xsl:param>'),
                         ('xsl:template[match=x select=y]>b', '<xsl:template match="x" select="y"><b></b></xsl:template>'), ('xsl:sort[select=k order=d]', '<xsl:sort select="k" order="d"></xsl:sort>')]:
             out.append({'s': ab, 'c': {'syntax': 'xsl', 'options': {'output.format': False}}, 'expect': exp, 'g': 'xsl-select'})
+        for ab, exp in [('label[for=${1:email}]>input', '<label for="email"><input type="text"></label>'), ('label>input[id=${1:x}]', '<label><input type="text" id="x"></label>'),
+                        ('label[for=a]>textarea', '<label for="a"><textarea name=""></textarea></label>'), ('label[for=${1:e} title=t]>div>input', '<label for="e" title="t"><div><input type="text"></div></label>')]:
+            out.append({'s': ab, 'c': {'options': {'output.format': False}}, 'expect': exp, 'g': 'label-addon'})
         n = 10000 if tier == 'quick' else 50000
         for _ in range(n):
             c = rnd.choice(C03_CFGS)
@@ -193,6 +201,14 @@ def cases(tier, seed, prop):
         for _ in range(n):
             w = gen_w(rnd, rnd.randint(1, 12))
             out.append({'w': w, 'tpl': rnd.randrange(len(TEXT_TPL)), 'c': rnd.choice([{}, {'options': {'output.format': False}}, {'syntax': 'xml'}, {'syntax': 'jsx'}, {'syntax': 'jsx', 'options': {'output.format': False}}]), 'g': 'text'})
+        for ab, tx, exp in [('div>a', 'T', '<div><a href="">T</a></div>'), ('a', 'some text', '<a href="">some text</a>'), ('p>b+a', 'T', '<p><b></b><a href="">T</a></p>')]:
+            out.append({'s0': ab, 'c': {'text': tx, 'options': {'output.format': False}}, 'expect_bare': exp, 'g': 'wrap-into-a'})
+        sn_ = {'btn': 'button{Click}', 'lnk': 'a{here}+i'}
+        for ab, tx, exp in [('btn{Go}', None, '<button>Go</button>'), ('div>btn{A b}', None, '<div><button>A b</button></div>'), ('btn', None, '<button>Click</button>'), ('ul>btn*', ['x', 'y'], '<ul><button>x</button><button>y</button></ul>'),
+                            ('div>btn', 'T', '<div><button>T</button></div>'), ('lnk{x}', None, '<a href="">x</a><i>x</i>')]:
+            c_ = {'snippets': dict(sn_), 'options': {'output.format': False}}
+            if tx is not None: c_['text'] = tx
+            out.append({'s0': ab, 'c': c_, 'expect_bare': exp, 'g': 'alias-with-text'})
         # multi-line texts whose lines begin with blanks: laid out one line per text line, every blank kept
         for w in ('  a\nb', ' \tq\n r', 'a\n  b', '   x y\n\n  z'):
             exp = '<x>\n' + ''.join('\t' + l + '\n' for l in w.split('\n')) + '</x>'
@@ -217,7 +233,7 @@ def cases(tier, seed, prop):
             w, want = gen_wnum(rnd, rnd.randint(2, 9), 0)
             out.append({'w': w, 'want': want, 'kids': 1, 'tpl': 1, 'c': {'options': {'output.format': False}}, 'g': 'text-kids'})
         for c in out:
-            c['s'] = TEXT_TPL[c['tpl']] % c['w'] if 'w' in c else WRAP_TPL[c['wrap']][0]
+            c['s'] = c['s0'] if 's0' in c else TEXT_TPL[c['tpl']] % c['w'] if 'w' in c else WRAP_TPL[c['wrap']][0]
         return out
     elif prop == 'C13':
         n = 8000 if tier == 'quick' else 40000
@@ -253,6 +269,9 @@ def cases(tier, seed, prop):
             seq = mk.gen_seq(rnd, o13c, [rnd.randint(1, 6)], 1)
             tidy_C13(seq)
             out.append({'seq': seq, 'c': {'options': o}, 'g': 'comment-fields'})
+        for t_ in FIELD_TPL + ['div>{a ${1} b ${2:x} c ${2}}>p+q', '{${2}${1:k} ${1}}>em', 'ul>{${0} ${1} ${1}}>li*2']:
+            for sy_ in ('html', 'xml'):
+                out.append({'s': t_, 'c': {'syntax': sy_}, 'g': 'snippet-fields'})
         # stylesheet syntaxes: snippets whose bodies span lines, numeric values, fields; positions only
         for _ in range(n // 6):
             c = {'type': 'stylesheet', 'syntax': rnd.choice(['css', 'scss', 'sass', 'less', 'stylus'])}
@@ -293,6 +312,13 @@ def cases(tier, seed, prop):
                 ps_ = mk.print_seq(seq)
                 if '\n\n' in ps_ or '{\n' in ps_: (c.get('options') or {}).pop('output.indent', None)      # blank text lines are padded with blanks: keep the indentation unit (a tab) distinguishable
                 out.append({'seq': seq, 'c': c, 'g': 'random'})
+        if prop == 'C15':
+            many = 'p' + ''.join('.c%d' % i for i in range(12))
+            for sy in ('pug', 'haml', 'slim'):
+                pre_ = '%' if sy == 'haml' else ''
+                out.append({'s': many, 'c': {'syntax': sy}, 'expect_lines': [pre_ + many], 'g': 'many-classes'})
+                out.append({'s': 'ul>li' + ''.join('.k%d' % i for i in range(10)) + '*2', 'c': {'syntax': sy}, 'expect_lines': [pre_ + 'ul', '\t' + pre_ + 'li' + ''.join('.k%d' % i for i in range(10)), '\t' + pre_ + 'li' + ''.join('.k%d' % i for i in range(10))], 'g': 'many-classes'})
+                out.append({'s': '{Note ${1:x}:}>em', 'c': {'syntax': sy}, 'expect_lines': ['Note x:', '\t' + pre_ + 'em'], 'g': 'text-node-child'})
         if prop == 'C12':
             # text nodes with fields and children (the children replace the first field; what follows it must survive every layout)
             for _ in range(n // 10):
@@ -685,6 +711,10 @@ def oracle_C04_wrap(case, o):
 
 
 def oracle_C04(case, o):
+    if 'expect_bare' in case:
+        if o[0] != 'ok': return ['no-output| expand(%r, %r) -> %s %s' % (case['s'], case['c'], o[0], o[1])]
+        got = re.sub(r'\$\{\d+\}', '', o[1])
+        return [] if got == case['expect_bare'] else ['text-whole| expand(%r, %r) = %r, expected %r' % (case['s'], case['c'], o[1], case['expect_bare'])]
     return oracle_C04_text(case, o) if 'w' in case else oracle_C04_wrap(case, o)
 
 
@@ -865,6 +895,9 @@ def cases_C14(tier, rnd):
         out.append({'s': k + '>' + k + '>u', 'alt': v + '>(' + v + '>u)', 'c': c, 'g': 'alias-in-alias'})
         out.append({'s': k + '>p+' + k + '>' + k, 'alt': v + '>(p+(' + v + '>(' + v + ')))', 'c': c, 'g': 'alias-in-alias'})
         out.append({'s': 'w>' + k + '>u+v', 'alt': 'w>(' + v + '>u+v)', 'c': c, 'g': 'deepest-last'})
+    chain = dict(('s%d' % i, 's%d.k%d' % (i + 1, i)) for i in range(12)); chain['s12'] = 'p.end'
+    out.append({'s': 's0', 'alt': 'p.end' + ''.join('.k%d' % i for i in range(11, -1, -1)), 'c': {'snippets': chain}, 'g': 'long-chain'})
+    out.append({'s': 'ul>s3*2', 'alt': 'ul>(p.end' + ''.join('.k%d' % i for i in range(11, 2, -1)) + ')*2', 'c': {'snippets': chain}, 'g': 'long-chain'})
     # an earlier call failed in the middle of a nested resolution (alias `box` uses `menu` uses the broken `item`): the corrected table expands as ever
     bad = {'snippets': {'menu': 'nav>item', 'item': 'li[title="]', 'box': 'div>menu'}}
     good = {'snippets': {'menu': 'nav>item', 'item': 'li[title=""]', 'box': 'div>menu'}}
@@ -1075,6 +1108,9 @@ def lines_of(forest, sy, depth, acc):
 def oracle_C15(case, o):
     from emmet.config import Config
     if o[0] != 'ok': return ['no-output| expand(%r) -> %s %s' % (case['s'], o[0], o[1])]
+    if 'expect_lines' in case:
+        got = [mk.strip_fields(l).rstrip() for l in o[1].split('\n')]
+        return [] if got == case['expect_lines'] else ['lines| expand(%r, %r): lines %r, expected %r' % (case['s'], case['c'], got, case['expect_lines'])]
     opt = Config(mkcfg(case['c'])).options
     sy = case['c']['syntax']; ind = opt.get('output.indent'); nl = opt.get('output.newline')
     forest = mk.unroll(mk.flat(case['seq']))
@@ -1114,6 +1150,8 @@ def run(case, prop):
         # result it says of this one too
         o2 = outcome_cached(case['s'], mkcfg(case['c']))
         if o2 != o: viol = viol + ['(with a cache shared by earlier calls) ' + v for v in ORACLES[prop](case, o2)]
+        o3 = outcome_rerendered(case['s'], mkcfg(case['c']))
+        if o3 is not None and o3 != o: viol = viol + ['(the parsed tree rendered a second time, after a rendering in another syntax) ' + v for v in ORACLES[prop](case, o3)]
     tags = {'gen:' + case['g']: 1, 'outcome:' + o[0]: 1, 'syntax:' + case['c'].get('syntax', '-'): 1}
     return line_of(o), viol, tags
 
